@@ -252,6 +252,16 @@ class SeqCheck {
         size_t lg = whole->getLength(pt, d.size());
         if (lg != d.size()) fail("length-computed", string("part ") + part + ": getLength(" + std::to_string(d.size()) + ")=" + std::to_string(lg) + " but " + std::to_string(d.size()) + " byte(s) written", part);
       }
+      // values of bit fields whose declared ranges intersect are OR-ed together and need not decode (don't-care)
+      bool mayOverlap = false;
+      for (size_t i = 0; i < n; i++) for (size_t j = i + 1; j < n; j++) {
+        if (seq[i].part != seq[j].part) continue;
+        const FT& a = FTof(seq[i].t); const FT& b = FTof(seq[j].t);
+        bool ab = a.bit || seq[i].t == g_subByte, bb = b.bit || seq[j].t == g_subByte;
+        int af = a.bit ? a.firstBit : 0, an = a.bit ? a.nbits : 6, bf = b.bit ? b.firstBit : 0, bn = b.bit ? b.nbits : 6;
+        if (ab && bb && af < bf + bn && bf < af + an) mayOverlap = true;
+      }
+      if (mayOverlap) continue;
       Dec w = decodeWhole(whole, e.m, e.s, OF_NONE);
       if (w.res < RESULT_OK) fail("length-consumed", string("read of the written bytes fails: ") + getResultCode(w.res));
     }
@@ -622,9 +632,9 @@ static int replay(const string& c) {
   for (int reading = 0; reading < (hasSub ? 2 : 1); reading++) {
     g_subByteAsBits = reading == 1;
     if (hasSub) printf("--- reading TTH as %s\n", reading ? "6-bit field that may share its byte" : "full-byte field");
-    SeqCheck sc(s, true);
+    SeqCheck sc(s, true, m["light"] == "1");
     if (!sc.run()) { printf("definition refused\nOK\n"); return 0; }
-    for (size_t i = 0; i < s.size(); i++) {
+    for (size_t i = 0; i < s.size() && i < sc.owned.size(); i++) {
       printf("field %zu %s part %c owns:", i, FTof(s[i].t).type, s[i].part);
       if (FTof(s[i].t).ign) printf(" (ignored)");
       else for (auto& kv : sc.owned[i].mask) printf(" byte%zu/mask%02x", kv.first, kv.second);
